@@ -106,6 +106,10 @@ UNITS["C15"] = [
 UNITS["C12"] = [
     dict(kind="structural", name="c12_last_id", check="last_id_published", file="crates/klukai-types/src/pubsub.rs", fn="handle_candidates", impl=r"^impl Matcher\b",
          trusted=["tokio watch: a value sent is what `borrow()` returns next; catch_up_sub reads it through MatcherHandle::last_change_id_sent"]),
+    dict(kind="structural", name="c12_snapshot_label", check="snapshot_label", file="crates/klukai-types/src/pubsub.rs", fn="all_rows", impl=r"^impl MatcherHandle\b",
+         trusted=["SQLite: two statements on one read transaction see one state; `changes.id` is the change id"]),
+    dict(kind="structural", name="c12_cursor", check="cursor_writers", file="crates/klukai-client/src/sub.rs", fn="(whole file)",
+         trusted=["struct-literal initialisation in the constructor is not an assignment; handle_change / handle_eoq are proved in unit c12_client"]),
     dict(kind="structural", name="c12_lag_stops", check="sub_lag_stops", file="crates/klukai-agent/src/api/public/pubsub.rs", fn="forward_sub_to_sender",
          trusted=["tokio broadcast: a receiver that fell behind gets RecvError::Lagged before any later event; mpsc try_send fails iff the buffer is full or closed"]),
     dict(kind="verus", name="c12_server", template="specs/c12_server.vrs",
@@ -409,6 +413,12 @@ _also("C10", "c10_apply_trigger_boot", "C03", "c03_apply_trigger_boot", "fully b
 _also("C02", "c02_commit_order", "C10", "c10_commit_order", "a changeset counts as held only after its bookkeeping was persisted")
 _also("C08", "c08_chunker", "C05", "c05_chunker", "send_change_chunks is proved against the chunker's contract; the contract itself is proved here")
 _also("C08", "c08_chunker", "C07", "c07_chunker", "a local transaction is announced through the same chunker: ranges tile 0..=last_seq")
+
+for _p in ("C05", "C08", "C03"):
+    UNITS[_p].append(dict(kind="structural", name=_p.lower() + "_row_error", check="chunker_error_stops", file="crates/klukai-agent/src/api/peer/mod.rs", fn="send_change_chunks",
+                          trusted=["ChunkedChanges::next returns a failed row as Some(Err(_)) without finishing and without dropping what it had collected (read in change.rs, not under contract for error rows)"]))
+UNITS["C07"].append(dict(kind="structural", name="c07_row_error", check="chunker_error_stops", file="crates/klukai-types/src/broadcast.rs", fn="broadcast_changes",
+                         trusted=["same obligation for the chunker that announces a local transaction (`for changes_seqs in chunked { match changes_seqs { … } }`)"]))
 
 # ---- composition guard: one structural unit per property that has fragment-based Verus units (see vx/structural.py check_exits_covered)
 import os as _os, re as _re
